@@ -53,6 +53,17 @@ def ops : List (String × Op) := [
         s!"{a.len} {b01 a.empty} " ++ (match a.bounds with | none => "None" | some (s, e) => s!"{s} {e}") ++ " " ++
           " ".intercalate (toString a.order.length :: a.order.map fun k => (if k.1 then "g " else "f ") ++ toString k.2))
         (mkAcollP pb genes fcs (bs, be)))),
+  -- the same collection (and its members) built on the SEQUENCE CHUNK [ps, pe) of the chromosome: the chromosome
+  -- ancestor's location is the chunk window, so the aggregates are those of `acollp`
+  ("acollk", do
+      let ps ← pOptNat; let pe ← pOptNat
+      let bs ← pOptNat; let be ← pOptNat
+      let genes ← pMembers true; let fcs ← pMembers false
+      let pb := match ps, pe with | some s, some e => some (s, e) | _, _ => none
+      pure (showA (fun (a : AcollAns) =>
+        s!"{a.len} {b01 a.empty} " ++ (match a.bounds with | none => "None" | some (s, e) => s!"{s} {e}") ++ " " ++
+          " ".intercalate (toString a.order.length :: a.order.map fun k => (if k.1 then "g " else "f ") ++ toString k.2))
+        (mkAcollP pb genes fcs (bs, be)))),
   ("acoll", do
       let bs ← pOptNat; let be ← pOptNat
       let genes ← pMembers true; let fcs ← pMembers false
